@@ -1748,4 +1748,426 @@ theorem spec_fuel_sufficient (fuel : Nat) (σ : Spec) (c : Nat) (rk : Nat → Na
       simp only [sStepCont, sInvokeF]
       exact (outObj_ne_err _ _).mpr this
 
+/-! ### isolation: symbols that are absent stay absent, instance ids are bounded by the counter -/
+
+theorem sStepCont_none (fuel : Nat) (sc : SCont) (nx : Nat) (op : ContOp) (x : Nat)
+    (hne : ∀ c, touches c x (.on c op) = false) (he : sc.ents x = none) :
+    (sStepCont fuel sc nx op).1.ents x = none := by
+  cases op with
+  | bind r f =>
+    have hr : ¬ r.accept = x := by simpa [touches] using hne 0
+    have hr' : ¬ x = r.accept := fun h => hr h.symm
+    simp only [sStepCont, SCont.bind]
+    split
+    · split <;> simp [setEnt_ents, hr', he]
+    · simp [setEnt_ents, hr', he]
+  | rebind r f =>
+    have hr : ¬ r.accept = x := by simpa [touches] using hne 0
+    have hr' : ¬ x = r.accept := fun h => hr h.symm
+    simp [sStepCont, SCont.rebind, setEnt_ents, hr', he]
+  | unbind r =>
+    simp only [sStepCont, SCont.unbind]
+    split <;> simp [setEnt_ents, he]
+  | resolve r => exact (sResolveF_ev fuel sc nx r).2.1.none_ x he
+  | can r => exact he
+  | invoke f args => exact (sInvoke_ev (sResolveF_ev fuel) sc nx f args).2.1.none_ x he
+
+theorem look_eq_none_of_lt {σ : Spec} {c x : Nat} (hc : c < σ.conts.length) :
+    look σ c x = none ↔ (σ.conts[c]'hc).ents x = none := by
+  simp [look, List.getElem?_eq_getElem hc]
+
+theorem specStep_length_le (fuel : Nat) (σ : Spec) (op : Op) : σ.conts.length ≤ (specStep fuel σ op).1.conts.length := by
+  cases op with
+  | newDI => simp [specStep]
+  | newLazy defs => simp only [specStep]; split <;> simp
+  | clone i => simp only [specStep]; split <;> simp
+  | combine i j => simp only [specStep]; split <;> (try split) <;> simp
+  | on i cop => simp only [specStep]; split <;> simp
+
+/-- a symbol a container does not know stays unknown to it as long as nobody binds it there -/
+theorem specStep_none (fuel : Nat) (σ : Spec) (op : Op) (c x : Nat) (hc : c < σ.conts.length)
+    (hne : touches c x op = false) (he : look σ c x = none) : look (specStep fuel σ op).1 c x = none := by
+  have happ : ∀ sc, look { σ with conts := σ.conts ++ [sc] } c x = none := by
+    intro sc; simp only [look, List.getElem?_append_left hc]; exact he
+  cases op with
+  | newDI => exact happ _
+  | newLazy defs => simp only [specStep]; split; exact he; exact happ _
+  | clone i => simp only [specStep]; split; exact he; exact happ _
+  | combine i j =>
+    simp only [specStep]
+    split
+    · split; exact he; exact happ _
+    · exact he
+  | on i cop =>
+    simp only [specStep]
+    cases hi : σ.conts[i]? with
+    | none => exact he
+    | some sc =>
+      simp only
+      by_cases hic : i = c
+      · subst hic
+        have hsc : sc.ents x = none := by simpa [look, hi] using he
+        have hne' : ∀ c', touches c' x (.on c' cop) = false := by
+          intro c'; cases cop <;> simp_all [touches]
+        have := sStepCont_none fuel sc σ.next cop x hne' hsc
+        simp [look, hc, this]
+      · simpa [look, List.getElem?_set, hic] using he
+
+theorem specRun_none (fuel : Nat) : ∀ (ops : List Op) (σ : Spec) (c x : Nat), c < σ.conts.length →
+    (∀ op ∈ ops, touches c x op = false) → look σ c x = none → look (specRun fuel σ ops).1 c x = none := by
+  intro ops
+  induction ops with
+  | nil => intro σ c x _ _ he; exact he
+  | cons op ops ih =>
+    intro σ c x hc hne he
+    simp only [specRun]
+    exact ih _ c x (Nat.lt_of_lt_of_le hc (specStep_length_le fuel σ op)) (fun op' h' => hne op' (by simp [h']))
+      (specStep_none fuel σ op c x hc (hne op (by simp)) he)
+
+/-- every instance an entry holds was created before the counter reached `n` -/
+def EntB (n : Nat) (e : Option SEntry) : Prop := ∀ se o, e = some se → se.inst = some o → o.id < n
+def ContB (n : Nat) (sc : SCont) : Prop := ∀ x, EntB n (sc.ents x)
+def SpecB (σ : Spec) : Prop := ∀ sc ∈ σ.conts, ContB σ.next sc
+
+theorem EntB.mono {n m : Nat} {e : Option SEntry} (h : EntB n e) (hnm : n ≤ m) : EntB m e :=
+  fun se o h1 h2 => Nat.lt_of_lt_of_le (h se o h1 h2) hnm
+
+theorem ContB.mono {n m : Nat} {sc : SCont} (h : ContB n sc) (hnm : n ≤ m) : ContB m sc := fun x => (h x).mono hnm
+
+theorem Ev.bounded {lo hi : Nat} {e e' : SEntry} (h : Ev lo hi e e') (hle : lo ≤ hi) (hb : EntB lo (some e)) :
+    EntB hi (some e') := by
+  intro se o hse ho
+  cases hse
+  cases hl : e.lazy
+  · obtain ⟨_, _, a3⟩ := h.mat hl
+    rcases a3 with a3 | ⟨_, o', ho', _, h4, _⟩
+    · rw [a3] at ho; exact Nat.lt_of_lt_of_le (hb e o rfl ho) hle
+    · rw [ho'] at ho; cases ho; exact h4
+  · rcases h.lzy hl with a | ⟨_, _, a3⟩
+    · subst a; exact Nat.lt_of_lt_of_le (hb _ o rfl ho) hle
+    · rcases a3 with a3 | ⟨o', ho', _, h4, _⟩
+      · rw [a3] at ho; cases ho
+      · rw [ho'] at ho; cases ho; exact h4
+
+theorem CEv.bounded {lo hi : Nat} {c c' : SCont} (h : CEv lo hi c c') (hle : lo ≤ hi) (hb : ContB lo c) : ContB hi c' := by
+  intro x se o hse ho
+  cases hx : c.ents x with
+  | none => rw [h.none_ x hx] at hse; cases hse
+  | some e =>
+    obtain ⟨e', he', hev⟩ := h.some_ x e hx
+    rw [he'] at hse; cases hse
+    exact hev.bounded hle (by rw [← hx]; exact hb x) _ o rfl ho
+
+theorem ContB.setNoInst {n : Nat} {sc : SCont} (h : ContB n sc) (s : Nat) (e : Option SEntry)
+    (he : ∀ se, e = some se → se.inst = none) : ContB n (sc.setEnt s e) := by
+  intro x se o hse ho
+  simp only [setEnt_ents] at hse
+  split at hse
+  · rw [he se hse] at ho; cases ho
+  · exact h x se o hse ho
+
+theorem sStepCont_bounded (fuel : Nat) (sc : SCont) (nx : Nat) (op : ContOp) (h : ContB nx sc) :
+    ContB (sStepCont fuel sc nx op).2.1 (sStepCont fuel sc nx op).1 := by
+  cases op with
+  | bind r f =>
+    simp only [sStepCont, SCont.bind]
+    split
+    · split
+      · exact h.setNoInst _ _ (fun se hse => by cases hse; rfl)
+      · exact h
+    · exact h.setNoInst _ _ (fun se hse => by cases hse; rfl)
+  | rebind r f => exact h.setNoInst _ _ (fun se hse => by cases hse; rfl)
+  | unbind r =>
+    simp only [sStepCont, SCont.unbind]
+    split
+    · exact h.setNoInst _ _ (fun se hse => by cases hse)
+    · exact h
+  | resolve r =>
+    obtain ⟨h1, h2, _⟩ := sResolveF_ev fuel sc nx r
+    exact h2.bounded h1 h
+  | can r => exact h
+  | invoke f args =>
+    obtain ⟨h1, h2, _⟩ := sInvoke_ev (sResolveF_ev fuel) sc nx f args
+    exact h2.bounded h1 h
+
+theorem sInstantiate_noInst : ∀ (defs : List (Nat × Injector)) (m m' : Nat → Option SEntry),
+    (∀ x se, m x = some se → se.inst = none) → sInstantiate m defs = .ok m' → ∀ x se, m' x = some se → se.inst = none := by
+  intro defs
+  induction defs with
+  | nil => intro m m' hm h; simp only [sInstantiate, Except.ok.injEq] at h; subst h; exact hm
+  | cons kv rest ih =>
+    obtain ⟨p, inj⟩ := kv
+    intro m m' hm h
+    simp only [sInstantiate] at h
+    split at h
+    · cases h
+    · refine ih _ m' ?_ h
+      intro x se hx
+      simp only [fset] at hx
+      split at hx
+      · cases hx; rfl
+      · exact hm x se hx
+
+theorem SpecB.append {σ : Spec} (h : SpecB σ) {sc : SCont} (hc : ContB σ.next sc) :
+    SpecB { σ with conts := σ.conts ++ [sc] } := by
+  intro c' hm
+  simp only [List.mem_append, List.mem_singleton] at hm
+  rcases hm with hm | hm
+  · exact h c' hm
+  · subst hm; exact hc
+
+theorem specStep_bounded (fuel : Nat) (σ : Spec) (op : Op) (h : SpecB σ) : SpecB (specStep fuel σ op).1 := by
+  cases op with
+  | newDI => exact h.append (fun x se o hse => by cases hse)
+  | newLazy defs =>
+    simp only [specStep]
+    cases hi : sInstantiate (fun _ => none) defs with
+    | error e => exact h
+    | ok m =>
+      refine h.append ?_
+      intro x se o hse ho
+      rw [sInstantiate_noInst defs _ m (fun x se hx => by cases hx) hi x se hse] at ho; cases ho
+  | clone i =>
+    simp only [specStep]
+    cases hi : σ.conts[i]? with
+    | none => exact h
+    | some c => exact h.append (h c (List.mem_of_getElem? hi))
+  | combine i j =>
+    simp only [specStep]
+    cases hi : σ.conts[i]? with
+    | none => exact h
+    | some a =>
+      cases hj : σ.conts[j]? with
+      | none => exact h
+      | some b =>
+        simp only
+        have ha := h a (List.mem_of_getElem? hi)
+        have hb := h b (List.mem_of_getElem? hj)
+        cases hc : a.combine b with
+        | error e => exact h
+        | ok c =>
+          refine h.append ?_
+          unfold SCont.combine at hc
+          split at hc
+          · cases hc
+          · split at hc
+            · cases hc
+            · simp only [Except.ok.injEq] at hc
+              subst hc
+              intro x se o hse ho
+              have hse' : preferRight (a.ents x) (b.ents x) = some se := hse
+              unfold preferRight at hse'
+              cases hbx : b.ents x with
+              | none => rw [hbx] at hse'; exact ha x se o hse' ho
+              | some re => rw [hbx] at hse'; simp only [Option.some.injEq] at hse'; subst hse'; exact hb x _ o hbx ho
+  | on i cop =>
+    simp only [specStep]
+    cases hi : σ.conts[i]? with
+    | none => exact h
+    | some c =>
+      have hc := h c (List.mem_of_getElem? hi)
+      have hb := sStepCont_bounded fuel c σ.next cop hc
+      have hle := sStepCont_next_le fuel c σ.next cop
+      intro c' hm
+      rcases List.mem_or_eq_of_mem_set hm with hm | hm
+      · exact (h c' hm).mono hle
+      · subst hm; exact hb
+
+theorem specRun_bounded (fuel : Nat) : ∀ (ops : List Op) (σ : Spec), SpecB σ → SpecB (specRun fuel σ ops).1 := by
+  intro ops
+  induction ops with
+  | nil => intro σ h; exact h
+  | cons op ops ih => intro σ h; simp only [specRun]; exact ih _ (specStep_bounded fuel σ op h)
+
+theorem init_bounded : SpecB Spec.init := by intro c hc; cases hc
+
+theorem instOf_bounded {σ : Spec} (h : SpecB σ) {c x : Nat} {o : Obj} (ho : instOf σ c x = some o) : o.id < σ.next := by
+  unfold instOf at ho
+  cases hl : look σ c x with
+  | none => rw [hl] at ho; cases ho
+  | some e =>
+    rw [hl] at ho
+    simp only at ho
+    split at ho
+    · cases ho
+    · cases hc : σ.conts[c]? with
+      | none => simp [look, hc] at hl
+      | some sc =>
+        have : sc.ents x = some e := by simpa [look, hc] using hl
+        exact h sc (List.mem_of_getElem? hc) x e o this ho
+
+theorem look_frame_gen (fuel : Nat) (σ : Spec) (op : Op) (c x : Nat) (hc : c < σ.conts.length) (ht : op.target ≠ some c) :
+    look (specStep fuel σ op).1 c x = look σ c x := by
+  have happ : ∀ sc, look { σ with conts := σ.conts ++ [sc] } c x = look σ c x := by
+    intro sc; simp only [look, List.getElem?_append_left hc]
+  cases op with
+  | newDI => simp only [specStep, happ]
+  | newLazy defs => simp only [specStep]; split; rfl; rw [happ]
+  | clone i => simp only [specStep]; split; rfl; rw [happ]
+  | combine i j =>
+    simp only [specStep]
+    split
+    · split; rfl; rw [happ]
+    · rfl
+  | on i cop =>
+    have hic : i ≠ c := fun h => ht (by simp [Op.target, h])
+    rw [look_frame fuel σ i c cop x hic]
+
+theorem instOf_frame (fuel : Nat) (σ : Spec) (op : Op) (c x : Nat) (hc : c < σ.conts.length) (ht : op.target ≠ some c) :
+    instOf (specStep fuel σ op).1 c x = instOf σ c x := by
+  unfold instOf
+  rw [look_frame_gen fuel σ op c x hc ht]
+
+/-- what one step can do to the instance slot of `(c, x)`: nothing, empty it, or fill it with an instance created
+    during this very step -/
+theorem instOf_step (fuel : Nat) (σ : Spec) (op : Op) (c x : Nat) (hc : c < σ.conts.length) :
+    instOf (specStep fuel σ op).1 c x = instOf σ c x ∨ instOf (specStep fuel σ op).1 c x = none ∨
+    ∃ o, instOf (specStep fuel σ op).1 c x = some o ∧ σ.next ≤ o.id ∧ o.id < (specStep fuel σ op).1.next := by
+  by_cases ht : op.target = some c
+  · cases op with
+    | on i cop =>
+      have hic : i = c := by simpa [Op.target] using ht
+      subst hic
+      by_cases htouch : touches i x (.on i cop) = true
+      · -- bind / rebind / unbind of this very symbol: the slot is emptied (or the op fails and nothing changes)
+        obtain ⟨sc, hsc⟩ : ∃ sc, σ.conts[i]? = some sc := ⟨σ.conts[i], List.getElem?_eq_getElem hc⟩
+        cases cop with
+        | bind r f =>
+          have hr : r.accept = x := by simpa [touches] using htouch
+          subst hr
+          simp only [specStep, hsc, sStepCont, SCont.bind]
+          cases he : sc.ents r.accept with
+          | none =>
+            refine Or.inr (Or.inl ?_)
+            simp [instOf, look_set_self σ i sc _ _ _ hsc, setEnt_ents]
+          | some e =>
+            simp only
+            by_cases hl : e.lazy = true
+            · refine Or.inr (Or.inl ?_)
+              simp [hl, instOf, look_set_self σ i sc _ _ _ hsc, setEnt_ents]
+            · refine Or.inl ?_
+              simp only [hl]
+              have e1 : look { conts := σ.conts.set i sc, next := σ.next } i r.accept = sc.ents r.accept :=
+                look_set_self σ i sc sc σ.next r.accept hsc
+              have e2 : look σ i r.accept = sc.ents r.accept := by simp [look, hsc]
+              simp only [instOf, Bool.false_eq_true, if_false, e1, e2]
+        | rebind r f =>
+          have hr : r.accept = x := by simpa [touches] using htouch
+          subst hr
+          refine Or.inr (Or.inl ?_)
+          simp [specStep, hsc, sStepCont, SCont.rebind, instOf, look_set_self σ i sc _ _ _ hsc, setEnt_ents]
+        | unbind r =>
+          have hr : r.accept = x := by simpa [touches] using htouch
+          subst hr
+          refine Or.inr (Or.inl ?_)
+          simp only [specStep, hsc, sStepCont, SCont.unbind]
+          cases he : sc.ents r.accept with
+          | none => simp [instOf, look_set_self σ i sc _ _ _ hsc, he]
+          | some e => simp [instOf, look_set_self σ i sc _ _ _ hsc, setEnt_ents]
+        | resolve r => simp [touches] at htouch
+        | can r => simp [touches] at htouch
+        | invoke f args => simp [touches] at htouch
+      · have hnt : touches i x (.on i cop) = false := by simpa using htouch
+        cases hl : look σ i x with
+        | none =>
+          refine Or.inr (Or.inl ?_)
+          simp [instOf, specStep_none fuel σ _ i x hc hnt hl]
+        | some e =>
+          obtain ⟨_, e', he', hev⟩ := specStep_ev fuel σ (.on i cop) i x e hnt hl
+          simp only [instOf, hl, he']
+          cases hlz : e.lazy
+          · obtain ⟨a1, _, a3⟩ := hev.mat hlz
+            simp only [a1, Bool.false_eq_true, if_false]
+            rcases a3 with a3 | ⟨a3, o, ho, h3, h4, _⟩
+            · exact Or.inl a3
+            · exact Or.inr (Or.inr ⟨o, ho, h3, h4⟩)
+          · simp only [if_true]
+            rcases hev.lzy hlz with a | ⟨a1, _, a3⟩
+            · subst a; simp [hlz]
+            · simp only [a1, Bool.false_eq_true, if_false]
+              rcases a3 with a3 | ⟨o, ho, h3, h4, _⟩
+              · exact Or.inr (Or.inl a3)
+              · exact Or.inr (Or.inr ⟨o, ho, h3, h4⟩)
+    | newDI => simp [Op.target] at ht
+    | newLazy defs => simp [Op.target] at ht
+    | clone i => simp [Op.target] at ht
+    | combine i j => simp [Op.target] at ht
+  · exact Or.inl (instOf_frame fuel σ op c x hc ht)
+
+/-- two slots in different containers never hold the same instance unless they did at the start: whatever fills one
+    of them later is created later than everything the other one holds -/
+theorem specStep_distinct (fuel : Nat) (σ : Spec) (op : Op) (c1 c2 x1 x2 : Nat) (hne : c1 ≠ c2)
+    (h1 : c1 < σ.conts.length) (h2 : c2 < σ.conts.length) (hb : SpecB σ)
+    (hd : ∀ o1 o2, instOf σ c1 x1 = some o1 → instOf σ c2 x2 = some o2 → o1.id ≠ o2.id) :
+    ∀ o1 o2, instOf (specStep fuel σ op).1 c1 x1 = some o1 → instOf (specStep fuel σ op).1 c2 x2 = some o2 → o1.id ≠ o2.id := by
+  intro o1 o2 ho1 ho2
+  by_cases ht1 : op.target = some c1
+  · have ht2 : op.target ≠ some c2 := by rw [ht1]; simpa using hne
+    rw [instOf_frame fuel σ op c2 x2 h2 ht2] at ho2
+    have hb2 := instOf_bounded hb ho2
+    rcases instOf_step fuel σ op c1 x1 h1 with h | h | ⟨o, h, hlo, _⟩
+    · rw [h] at ho1; exact hd o1 o2 ho1 ho2
+    · rw [h] at ho1; cases ho1
+    · rw [h] at ho1; cases ho1; omega
+  · rw [instOf_frame fuel σ op c1 x1 h1 ht1] at ho1
+    have hb1 := instOf_bounded hb ho1
+    rcases instOf_step fuel σ op c2 x2 h2 with h | h | ⟨o, h, hlo, _⟩
+    · rw [h] at ho2; exact hd o1 o2 ho1 ho2
+    · rw [h] at ho2; cases ho2
+    · rw [h] at ho2; cases ho2; omega
+
+theorem specRun_distinct (fuel : Nat) : ∀ (ops : List Op) (σ : Spec) (c1 c2 x1 x2 : Nat), c1 ≠ c2 →
+    c1 < σ.conts.length → c2 < σ.conts.length → SpecB σ →
+    (∀ o1 o2, instOf σ c1 x1 = some o1 → instOf σ c2 x2 = some o2 → o1.id ≠ o2.id) →
+    ∀ o1 o2, instOf (specRun fuel σ ops).1 c1 x1 = some o1 → instOf (specRun fuel σ ops).1 c2 x2 = some o2 → o1.id ≠ o2.id := by
+  intro ops
+  induction ops with
+  | nil => intro σ c1 c2 x1 x2 _ _ _ _ hd; exact hd
+  | cons op ops ih =>
+    intro σ c1 c2 x1 x2 hne h1 h2 hb hd
+    simp only [specRun]
+    have hle := specStep_length_le fuel σ op
+    exact ih _ c1 c2 x1 x2 hne (Nat.lt_of_lt_of_le h1 hle) (Nat.lt_of_lt_of_le h2 hle) (specStep_bounded fuel σ op hb)
+      (specStep_distinct fuel σ op c1 c2 x1 x2 hne h1 h2 hb hd)
+
+
+/-- an instance a container holds is what every later resolve returns, until the symbol is touched there -/
+theorem spec_inst_persists (fuel : Nat) (σ : Spec) (mid : List Op) (c x : Nat) (e : SEntry) (o : Obj) (f : Factory) (r : SymRef)
+    (he : look σ c x = some e) (hl : e.lazy = false) (hi : e.inst = some o) (hf : e.inj.load = .ok f)
+    (hmid : ∀ op ∈ mid, touches c x op = false) (hr : r.accept = x) :
+    (specStep (fuel + 1) (specRun (fuel + 1) σ mid).1 (.on c (.resolve r))).2 = .obj o := by
+  obtain ⟨_, e', m1, m2⟩ := specRun_ev (fuel + 1) mid σ c x e hmid he
+  obtain ⟨a1, a2, a3⟩ := m2.mat hl
+  have hinst : e'.inst = some o := by
+    rcases a3 with a3 | ⟨a3, _⟩
+    · rw [a3, hi]
+    · rw [hi] at a3; cases a3
+  exact specStep_resolve_inst fuel _ c r e' o f (by rw [hr]; exact m1) a1 hinst (by rw [a2, hf])
+
+theorem abs_conts_length (σ : State) : (abs σ).conts.length = σ.conts.length := abs_length σ
+
+theorem run_append (fuel : Nat) : ∀ (a b : List Op) (σ : State),
+    (run fuel σ (a ++ b)).1 = (run fuel (run fuel σ a).1 b).1 := by
+  intro a
+  induction a with
+  | nil => intro b σ; rfl
+  | cons op a ih => intro b σ; simp only [List.cons_append, run]; exact ih b _
+
+theorem run_snoc (fuel : Nat) (a : List Op) (op : Op) (σ : State) :
+    (run fuel σ (a ++ [op])).1 = (step fuel (run fuel σ a).1 op).1 := by
+  rw [run_append]; simp [run]
+
+/-- a successful resolve leaves exactly the returned instance in the slot -/
+theorem specStep_resolve_instOf (fuel : Nat) (σ : Spec) (c : Nat) (r : SymRef) (o : Obj)
+    (h : (specStep fuel σ (.on c (.resolve r))).2 = .obj o) :
+    instOf (specStep fuel σ (.on c (.resolve r))).1 c r.accept = some o := by
+  obtain ⟨e', k1, k2, k3, _⟩ := specStep_resolve_out fuel σ c r o h
+  simp [instOf, k1, k2, k3]
+
+theorem specRun_length_le (fuel : Nat) : ∀ (ops : List Op) (σ : Spec), σ.conts.length ≤ (specRun fuel σ ops).1.conts.length := by
+  intro ops
+  induction ops with
+  | nil => intro σ; exact Nat.le_refl _
+  | cons op ops ih => intro σ; simp only [specRun]; exact Nat.le_trans (specStep_length_le fuel σ op) (ih _)
+
 end Tranp.DI
